@@ -5,9 +5,14 @@ from pyvc.sym import (VInt, VBool, VStr, VRef, VOpt, INT, BOOL, STR, REF, TOpt, 
                       length, tobool, toint, tostr, fresh_name, vite)
 from contracts.common import add_common
 
-VERIFY = ["trees.treeoutput.export_tabs", "trees.treeoutput.export_format"]
+VERIFY = ["trees.treeoutput.export_tabs", "trees.treeoutput.export_format", "trees.treeoutput.brackets",
+          "trees.treeoutput.terminals"]
 TRUSTED = []
-ASSUMPTIONS = ["int = mathematical integer; str = SMT string"]
+ASSUMPTIONS = ["int = mathematical integer; str = SMT string",
+               "an output stream is modelled as the text written to it so far (write / print(file=) append); encoding and "
+               "buffering of the real file object are outside the model",
+               "write_brackets_subtree is used through the assumed contract 'appends some text to the stream and nothing "
+               "else' (its output is decided by the bounded stand-in)"]
 
 
 def tabs_spec(n):
@@ -73,6 +78,8 @@ def build(reg):
         ensures={"line_format_with_defaults": ef_post, "stores_only_defaults": ef_frame},
         result_type=STR))
 
+    add_stream_writers(reg)
+
     reg.add(Contract(
         target="trees.treeoutput.export_tabs", prop="C02", args=dict(length=INT),
         requires=lambda S, length: VBool(length.t >= 0),
@@ -81,6 +88,99 @@ def build(reg):
             "separates_fields": lambda S, length, result: VBool(z3.Length(tostr(result)) >= 1),
         },
         returns=None, result_type=STR))
+
+
+def add_stream_writers(reg):
+    """treeoutput.brackets (refusal of discontinuous trees) and treeoutput.terminals (one rendering per token)"""
+    from pyvc.sym import TRec, TList, VList, qforall
+    from contracts.common import WF, wf_theory, gapdeg, desc, preorder_facts
+    import contracts.c16 as c16
+    c16.build(reg)
+    STREAM = TRec("stream", text=STR)
+    text_of = lambda v: tostr(v.fields["text"])
+
+    reg.add(Contract(
+        target="trees.treeoutput.write_brackets_subtree", prop="C02", args=dict(tree=REF, stream=STREAM), params={},
+        requires=lambda S, tree, stream, params: WF(S.H, tree) & (tree != None),
+        appends={"stream": None}, result_type=None, assumed=True,
+        note="appends some text to the stream, touches nothing else (what it appends is decided by the bounded "
+             "stand-in: independent bracket decoder)"))
+    reg.get("trees.treeoutput.write_brackets_subtree").result_type = __import__("pyvc.sym", fromlist=["TNone"]).TNone()
+
+    def tree_gap_degree_positive(S, tree):
+        """some node below the tree has a set-based gap degree > 0"""
+        H = S.old
+        P = H.pre(tree)         # every node below the tree exactly once (contract of trees.preorder, C19)
+        k = z3.Int(fresh_name("bk"))
+        return z3.Exists([k], z3.And(0 <= k, k < P.n, gapdeg(H, P.get(k)).t > 0))
+
+    def br_raises(S, tree, stream, params):
+        return VBool(z3.And(tree_gap_degree_positive(S, tree), z3.Not(params.fields["has"]["brackets_skipdisco"])))
+
+    def br_post(S, tree, stream, params, result):
+        """a discontinuous tree that is skipped leaves the stream untouched; a continuous tree is written as the text of
+        write_brackets_subtree followed by exactly one newline"""
+        new = text_of(S.final("stream"))
+        old = text_of(stream)
+        w = z3.String(fresh_name("bw"))
+        return VBool(z3.If(tree_gap_degree_positive(S, tree), new == old,
+                           z3.Exists([w], new == z3.Concat(old, w, z3.StringVal("\n")))))
+
+    reg.add(Contract(
+        target="trees.treeoutput.brackets", prop="C02", args=dict(tree=REF, stream=STREAM),
+        params={"brackets_skipdisco": BOOL},
+        requires=lambda S, tree, stream, params: conj(WF(S.H, tree), tree != None, wf_theory(S.H),
+                                                      preorder_facts(S.H, tree)),
+        raises={"ValueError": br_raises},
+        ensures={"refuses_exactly_discontinuous_trees_else_one_line": br_post}, result_type=None))
+
+    # ---- terminals writer
+    def tw_raises(S, tree, stream, params):
+        h = params.fields["has"]
+        return VBool(z3.And(h["terminals_pos"], h["pos_only"]))
+
+    def rendering(H, x, params):
+        """what is written for token x: POS tag, word, or word + separator + POS tag; followed by newline or blank"""
+        h = params.fields["has"]
+        word = z3.Select(H.f["val_word"], x)
+        lab = z3.Select(H.f["val_label"], x)
+        one = h["terminals_one"]
+        sep = z3.If(one, z3.StringVal("\t"), z3.StringVal("/"))
+        body = z3.If(h["pos_only"], lab, z3.If(h["terminals_pos"], z3.Concat(word, sep, lab), word))
+        return z3.Concat(body, z3.If(one, z3.StringVal("\n"), z3.StringVal(" ")))
+
+    def tw_requires(S, tree, stream, params):
+        H = S.H
+        x = z3.Int(fresh_name("tx"))
+        return conj(WF(H, tree), tree != None,
+                    VBool(qforall([x], z3.Implies(z3.And(tobool(WF(H, VRef(x))), H.nchild_t(x) == 0), z3.And(
+                        z3.Select(H.f["has_word"], x), z3.Not(z3.Select(H.f["none_word"], x)),
+                        z3.Select(H.f["has_label"], x), z3.Not(z3.Select(H.f["none_label"], x)))),
+                        [tobool(WF(H, VRef(x)))])))
+
+    # ghost: W(k) = the text of the stream after the first k tokens, defined by primitive recursion over the token
+    # list of the entry state (a conservative definition, introduced in the precondition)
+    W = z3.Function("tw_text_after", z3.IntSort(), z3.StringSort())
+
+    def tw_requires_full(S, tree, stream, params):
+        H = S.H
+        T = H.terms(tree)
+        k = z3.Int(fresh_name("wk"))
+        return conj(tw_requires(S, tree, stream, params),
+                    VBool(W(0) == text_of(stream)),
+                    VBool(qforall([k], z3.Implies(z3.And(0 <= k, k < T.n),
+                                                  W(k + 1) == z3.Concat(W(k), rendering(H, T.get(k).t, params))),
+                                  [W(k + 1)])))
+
+    reg.add(Contract(
+        target="trees.treeoutput.terminals", prop="C02", args=dict(tree=REF, stream=STREAM),
+        params={"terminals_pos": BOOL, "pos_only": BOOL, "terminals_one": BOOL},
+        requires=tw_requires_full,
+        raises={"ValueError": tw_raises},
+        ensures={"one_rendering_per_token_in_order_then_newline": lambda S, tree, stream, params, result: VBool(
+            text_of(S.final("stream")) == z3.Concat(W(S.old.terms(tree).n), z3.StringVal("\n")))},
+        loops={0: dict(inv=lambda S: VBool(text_of(S.stream) == W(toint(S.it))))},
+        result_type=None))
 
 
 def replay_model(rec, repo):
